@@ -155,9 +155,14 @@ func (e *testEnv) monitorStoreFault(sc scenario, plan map[string]string, dataFau
 	}
 	_, holds := nb.jar[e.opts.Cookie.Name]
 	if hasSessionSet(v, e.opts.Cookie.Name) && holds && e.cfg.Redis {
-		// the cookie the browser ends up with must denote a loadable session
+		// the cookie the browser ends up with must denote a loadable session (a follow-up request WITHOUT faults: whatever
+		// this step's plan did not reach is not carried over)
+		if e.rec != nil {
+			e.rec.disarm()
+		}
 		r2 := e.do(reqSpec{Target: "/app/after", Cookie: nb.cookieHeader()})
 		if len(r2.Hits) == 0 {
+			input["follow_up_status"], input["follow_up_body"], input["follow_up_events"] = r2.Status, truncate(r2.Body, 300), fmt.Sprint(e.rec.events)
 			c.violation("C13", "cookie issued for a session that is not loadable from the store", input)
 		}
 	}
@@ -593,8 +598,16 @@ func init() {
 					c.count("c13:history")
 				}
 				nb := newBrowser()
+				e.rec.reset(nil) // faults of the last step that were planned but not reached are not part of the clean login
 				if lr := e.login(nb, u, "/alive"); !lr.OK {
-					c.violation("C13", "proxy cannot complete a clean login after the fault histories", nil)
+					det := map[string]interface{}{"events": fmt.Sprint(e.rec.events)}
+					if lr.StartResp != nil {
+						det["start_status"] = lr.StartResp.Status
+					}
+					if lr.CallbackResp != nil {
+						det["callback_status"], det["callback_body"] = lr.CallbackResp.Status, truncate(lr.CallbackResp.Body, 300)
+					}
+					c.violation("C13", "proxy cannot complete a clean login after the fault histories", det)
 				}
 				e.close()
 			}
